@@ -119,6 +119,7 @@ type World struct {
 	spentBack     map[string]bool // swap id -> a coop/csv spend of the opening output was broadcast
 	curSwap       string          // swap id the scenario is driving
 	btcOn, lbtcOn bool
+	policyPath    string
 }
 
 type WorldCfg struct {
@@ -135,6 +136,7 @@ type WorldCfg struct {
 	SpendableMsat   uint64
 	ReceivableMsat  uint64
 	IdempotentRepay bool
+	PolicyContent   string
 }
 
 func defaultCfg() WorldCfg {
@@ -159,6 +161,20 @@ func newWorld(cfg WorldCfg) *World {
 	w.lbtc = newSimChain(w, "lbtc", cfg.LbtcHeight, cfg.WalletSat, cfg.OpeningFee)
 	w.msgr = &simMessenger{w: w}
 	w.mgr = &simManager{w: w, inner: messages.NewManager()}
+	if cfg.PolicyFile {
+		path := filepath.Join(dir, "policy.conf")
+		content := cfg.PolicyContent
+		if content == "" {
+			content = "accept_all_peers=true\n"
+		}
+		os.WriteFile(path, []byte(content), 0o644)
+		rp, err := policy.CreateFromFile(path)
+		if err != nil {
+			panic(err)
+		}
+		w.pol.real = rp
+		w.policyPath = path
+	}
 	w.openDB()
 	w.boot(cfg.BtcEnabled, cfg.LbtcEnabled)
 	return w
@@ -211,7 +227,9 @@ func (w *World) boot(btc, lbtc bool) {
 func (w *World) restart() {
 	w.flushCrashNote()
 	w.dead = false
-	w.crashAt = 0
+	if w.crashAt != 0 && w.crashAt <= w.effects {
+		w.crashAt = 0 // the scheduled crash already happened; one scheduled for the recovery itself stays
+	}
 	w.mgr.stopAll()
 	w.mgr = &simManager{w: w, inner: messages.NewManager()}
 	w.btc.confWatch, w.btc.csvWatch = nil, nil
@@ -396,7 +414,7 @@ func (l *logStore) UpdateData(s *swap.SwapStateMachine) error {
 		fl["openings"] = fmt.Sprint(l.w.openings[id])
 		fl["spentback"] = b01(l.w.spentBack[id])
 		fl["resend"] = b01(l.w.mgr.active[id])
-		fl["suspicious"] = b01(l.w.pol.susp[s.Data.PeerNodeId])
+		fl["suspicious"] = b01(l.w.pol.IsPeerSuspicious(s.Data.PeerNodeId))
 		fl["csvwatch"], fl["invpaid"] = "0", "0"
 		for _, ch := range []*simChain{l.w.btc, l.w.lbtc} {
 			for _, wt := range ch.csvWatch {
